@@ -9,10 +9,10 @@ use scale::Compact;
 use scale_info::{build::{Fields, Variants}, meta_type, MetaType, Path, Type, TypeInfo, TypeParameter};
 use std::borrow::Cow;
 use std::cell::Cell;
-use std::collections::{BTreeMap, BTreeSet, VecDeque};
+use std::collections::{BTreeMap, BTreeSet, BinaryHeap, VecDeque};
 use std::marker::PhantomData;
 use std::num::NonZeroU8;
-use std::ops::Range;
+use std::ops::{Range, RangeInclusive};
 use std::rc::Rc;
 use std::sync::Arc;
 use std::time::Duration;
@@ -214,6 +214,17 @@ pub fn universe() -> Vec<Member> {
         m!(BTreeSet<u8>, "BTreeSet<u8>"),
         m!(Cow<'static, str>, "Cow<str>"),
         m!(Range<u8>, "Range<u8>"),
+        // every other unary built-in constructor at the same argument (distinct types must never merge)
+        m!(RangeInclusive<u8>, "RangeInclusive<u8>"),
+        m!(BinaryHeap<u8>, "BinaryHeap<u8>"),
+        m!(Cow<'static, u8>, "Cow<u8>"),
+        m!(Cow<'static, [u8]>, "Cow<[u8]>"),
+        m!(Compact<u8>, "Compact<u8>"),
+        m!((u8,), "(u8,)"),
+        m!([u8; 1], "[u8;1]"),
+        m!(Result<u8, u8>, "Result<u8,u8>"),
+        m!(BTreeMap<u8, u8>, "BTreeMap<u8,u8>"),
+        m!((u8, u8), "(u8,u8)"),
         m!(Duration, "Duration"),
         m!(NonZeroU8, "NonZeroU8"),
         m!(BitVec<u8, Lsb0>, "BitVec<u8,Lsb0>"),
